@@ -58,3 +58,36 @@ fn c13_binop_total() {
     let b = any_scalar();
     let _ = op.eval(a, b);
 }
+
+fn truth(v: &Value) -> bool {
+    match *v {
+        Value::Null => false,
+        Value::Int(n) => n != 0,
+        Value::Str(ref s) => !s.is_empty(),
+    }
+}
+
+fn is_int(v: &Value, want: i32) -> bool {
+    match *v {
+        Value::Int(n) => n == want,
+        _ => false,
+    }
+}
+
+// @harness name=c13_logic_ops kind=Pc tier=quick props=C13 desc="AND / OR / NOT on every pair of scalar operands (Null or any i32), evaluated through Ast::eval on literal leaves: the result is exactly Int(1) or Int(0) according to the documented truthiness (null and zero are false), whichever operand decides"
+#[kani::proof]
+#[kani::unwind(2)]
+fn c13_logic_ops() {
+    use crate::internal::table::{Row, Table};
+    let a = any_scalar();
+    let b = any_scalar();
+    let (ta, tb) = (truth(&a), truth(&b));
+    let row = Row::new(Table::new(String::new(), Vec::new(), false), Vec::new());
+    let lit = |v: &Value| Box::new(Ast::Literal(v.clone()));
+    let and = Ast::And(lit(&a), lit(&b)).eval(&row);
+    assert!(is_int(&and, (ta && tb) as i32));
+    let or = Ast::Or(lit(&a), lit(&b)).eval(&row);
+    assert!(is_int(&or, (ta || tb) as i32));
+    let not = Ast::UnOp(UnOp::BoolNot, lit(&a)).eval(&row);
+    assert!(is_int(&not, (!ta) as i32));
+}
